@@ -80,6 +80,8 @@ func c03Scens(quick bool) []*fatScen {
 		}
 		out = append(out, &fatScen{Name: "fillbig", Cfg: c, Oracle: "range", Depth: 2, Letters: []fsOp{{Kind: "fillgeo", Path: "g"}, {Kind: "write", Path: "last.bin", Off: "0", Len: "c+1"}, {Kind: "mkdir", Path: "d/e"}, {Kind: "remove", Path: "g000"}, {Kind: "reopen"}}})
 	}
+	// ext4 Create at sizes whose last block group is very short (or absent): nothing may be written behind the range
+	out = append(out, ext4GroupSweep("range", quick, []fsOp{{Kind: "mkdir", Path: "d"}, {Kind: "write", Path: "f.bin", Off: "0", Len: "c+1"}, {Kind: "reopen"}})...)
 	return out
 }
 
